@@ -138,12 +138,36 @@ def check_lifecycle(plan, got, ref, V: Violations, counters: dict):
 
 
 def run_engine(plan, log=None):
-    engine, kernels = W.build(plan)
+    """Builds, drives and collects; SutError (exception from a legitimate call) propagates."""
+    from simkit.core import SutError
+
+    try:
+        engine, kernels = W.build(plan)
+    except SutError:
+        raise
+    except Exception as e:
+        raise SutError(f"build|{type(e).__name__}|?|{e}") from e
     events = W.drive(engine, plan, log)
-    res = engine.get_results()
-    got = W.collect(res)
+    try:
+        res = engine.get_results()
+        got = W.collect(res)
+    except Exception as e:
+        raise SutError(f"get_results|{type(e).__name__}|?|{e}") from e
     got["events"] = events
     return got, res
+
+
+def sut_violation(V, e):
+    parts = str(e).split("|", 3)
+    if len(parts) == 4:
+        V.add("unexpected-exception", f"{parts[0]}/{parts[1]}/{parts[2]}", f"a legitimate API call raised: {parts[3]}")
+    else:
+        V.add("unexpected-exception", "call", str(e))
+
+
+def failed(V, log):
+    return {"violations": V.items, "digest": log.digest(), "tail": log.tail, "sig": "exception", "nontrivial": True,
+            "counters": {}, "simtime": 0, "subbatch": "exception"}
 
 
 def execute(plan: dict) -> dict:
@@ -151,7 +175,13 @@ def execute(plan: dict) -> dict:
     log = EventLog()
     counters: dict = {}
     ref = W.RefEngine(plan).run()
-    got, _ = run_engine(plan, log)
+    from simkit.core import SutError
+
+    try:
+        got, _ = run_engine(plan, log)
+    except SutError as e:
+        sut_violation(V, e)
+        return failed(V, log)
     check_lifecycle(plan, got, ref, V, counters)
     log.add("samples", tree_digest(got["samples"]))
     log.add("infos", tree_digest(got["infos"]))
